@@ -125,6 +125,7 @@ pub fn universe(tier: Tier) -> Vec<RVal> {
         }
     }
     out.extend(univ::relation_universe(univ::d2(), false));
+    out.extend(refmodel::gen::strkey_docs());
     if tier.thorough() {
         out.extend(univ::p5().iter().cloned());
     }
